@@ -30,11 +30,16 @@ def plan(tier):
 
 
 def setup(ctx):
-    reg = qlang.Registry()
+    _S["reg"] = qlang.Registry()
+    _ensure(ctx, f"c11-data-{ctx.seed}-{ctx.widx}")
+
+
+def _ensure(ctx, data_key):
+    if _S.get("key") == data_key:
+        return
     st = Store("memory", ctx.tmp)
-    rng = random.Random(f"c11-data-{ctx.seed}-{ctx.widx}")
-    lo, hi = qlang.populate(st.ds, rng, 1_600_000_000_000_000)
-    _S.update(reg=reg, st=st, lo=lo, hi=hi)
+    lo, hi = qlang.populate(st.ds, random.Random(data_key), 1_600_000_000_000_000)
+    _S.update(st=st, lo=lo, hi=hi, key=data_key)
 
 
 def teardown(ctx):
@@ -45,7 +50,7 @@ def gen_case(rng, ctx):
     g = qlang.ProgGen(rng, max_depth=rng.choice([2, 3, 4, 5]))
     prog = g.program()
     seeds = [rng.randrange(2**32), rng.randrange(2**32)]
-    return dict(prog=prog, spacing_seeds=seeds)
+    return dict(prog=prog, spacing_seeds=seeds, data_key=_S["key"])
 
 
 def outcome(fn):
@@ -58,6 +63,7 @@ def outcome(fn):
 
 def run_case(case, ctx):
     import aw_query
+    _ensure(ctx, case["data_key"])
     reg, ds = _S["reg"], _S["st"].ds
     prog = case["prog"]
     start, end = mk_dt(_S["lo"]), mk_dt(_S["hi"], 60)
